@@ -22,6 +22,7 @@ func installOracles(m *Monitors) {
 		&orC08{baseOracle: baseOracle{m}},
 		&orC10{baseOracle: baseOracle{m}},
 		&orC11{baseOracle: baseOracle{m}},
+		&orC16{baseOracle: baseOracle{m}},
 		&orC17{baseOracle: baseOracle{m}},
 		&orC18{baseOracle: baseOracle{m}},
 		&orC20{baseOracle: baseOracle{m}},
